@@ -51,8 +51,10 @@ class Gen:
             return "len(xs)"
         if r < 0.88:
             return "d.get(%s, %s)" % (self.iexpr(depth + 1), self.const())
-        if r < 0.91:
+        if r < 0.89:
             return "pf(%s)" % self.iexpr(depth + 1)
+        if r < 0.91:
+            return "%s(%s)" % (R.choice(["twice", "clip"]), self.iexpr(depth + 1))
         if r < 0.94:   # and / or as a value
             return "(%s %s %s)" % (R.choice([self.iexpr(depth + 1), "(not %s)" % self.iexpr(depth + 1), "(%s)" % self.cond(depth + 1)]), R.choice(["and", "or"]), self.iexpr(depth + 1))
         return "(%s if %s else %s)" % (self.iexpr(depth + 1), self.cond(depth + 1), self.iexpr(depth + 1))
@@ -415,7 +417,40 @@ class ToFString(ast.NodeTransformer):
         return node
 
 
-_VOCAB = ("min", "max", "abs", "len", "pf", "d", "xs", "sum", "chk", "pair", "any", "all", "zip", "emit", "ys", "zs", "acc", "o", "r", "cm", "str", "sorted", "ws", "vs", "ps", "qs", "ms", "both", "coll")
+_VOCAB = ("min", "max", "abs", "len", "pf", "d", "xs", "sum", "chk", "pair", "any", "all", "zip", "emit", "ys", "zs", "acc", "o", "r", "cm", "str", "sorted", "ws", "vs", "ps", "qs", "ms", "both", "coll", "twice", "clip")
+
+
+class ExtractMutator(ast.NodeTransformer):
+    """ys.append(e) / d[k] = v  ->  _helperN(ys, e) / _helperN(d, k, v): a procedure that mutates what it is given"""
+    def __init__(self):
+        self.helpers = []
+
+    def visit_FunctionDef(self, node):
+        if node.name.startswith("cl") or node.name.startswith("_helper"):
+            return node
+        return self.generic_visit(node)
+
+    def visit_Expr(self, node):
+        v = node.value
+        if isinstance(v, ast.Call) and isinstance(v.func, ast.Attribute) and v.func.attr == "append" and isinstance(v.func.value, ast.Name) and len(v.args) == 1 and R.random() < 0.6 \
+                and not any(isinstance(x, (ast.Lambda, ast.Yield)) for x in ast.walk(v)):
+            ExtractHelper.k += 1
+            hn = "_helper%d" % ExtractHelper.k
+            fd = ast.parse("def %s(c_, v_):\n    c_.append(v_)\n" % hn).body[0]
+            self.helpers.append(fd)
+            return ast.Expr(value=ast.Call(func=ast.Name(id=hn, ctx=ast.Load()), args=[v.func.value, v.args[0]], keywords=[]))
+        return node
+
+    def visit_Assign(self, node):
+        t = node.targets[0]
+        if len(node.targets) == 1 and isinstance(t, ast.Subscript) and isinstance(t.value, ast.Name) and R.random() < 0.6 \
+                and not any(isinstance(x, (ast.Lambda, ast.Yield)) for x in ast.walk(node)):
+            ExtractHelper.k += 1
+            hn = "_helper%d" % ExtractHelper.k
+            fd = ast.parse("def %s(c_, k_, v_):\n    c_[k_] = v_\n" % hn).body[0]
+            self.helpers.append(fd)
+            return ast.Expr(value=ast.Call(func=ast.Name(id=hn, ctx=ast.Load()), args=[ast.Name(id=t.value.id, ctx=ast.Load()), t.slice, node.value], keywords=[]))
+        return node
 
 
 class ExtractValueHelper(ast.NodeTransformer):
@@ -467,12 +502,12 @@ def rewrite(fn):
     helpers = {}
     names = []
     choices = [("T1", nf_twins.T1), ("T3", nf_twins.T3), ("T4", nf_twins.T4), ("T6", nf_twins.T6), ("DeMorgan", DeMorgan), ("NegCompare", NegCompare),
-               ("MinMaxToIf", MinMaxToIf), ("TempIntro", TempIntro), ("IfExpToIf", IfExpToIf), ("ExtractHelper", ExtractHelper), ("ExtractValueHelper", ExtractValueHelper), ("ToFString", ToFString)]
+               ("MinMaxToIf", MinMaxToIf), ("TempIntro", TempIntro), ("IfExpToIf", IfExpToIf), ("ExtractHelper", ExtractHelper), ("ExtractValueHelper", ExtractValueHelper), ("ToFString", ToFString), ("ExtractMutator", ExtractMutator)]
     for name, T in R.sample(choices, R.randint(1, 4)):
         t = T()
         f2 = t.generic_visit(f2)
         names.append(name)
-        if name in ("ExtractHelper", "ExtractValueHelper") and t.helpers:
+        if name in ("ExtractHelper", "ExtractValueHelper", "ExtractMutator") and t.helpers:
             f2.body = t.helpers + f2.body
             for h in t.helpers:
                 helpers[h.name] = h
@@ -620,6 +655,7 @@ def _behaviour(src):
                 trace.append(("exit", tag))
         obj = types.SimpleNamespace(n=a + 1)
         env = {"emit": trace.append, "pf": lambda v: v * v - 1, "chk": _chk, "pair": _pair, "cm": _cm}
+        exec(PRELUDE, env)
         try:
             env["Fr"] = _Fr
             exec(src.replace("0.5", "Fr(1, 2)"), env)   # exact arithmetic: the normaliser reasons over the reals
@@ -670,7 +706,22 @@ def nf_of(fn, helpers):
         signal.setitimer(signal.ITIMER_REAL, 0)
 
 
+PRELUDE = '''
+def twice(v):
+    return v + v
+
+
+def clip(v):
+    if v < 0:
+        return 0
+    w = v
+    return w
+'''
+_PRELUDE_HELPERS = {n.name: n for n in ast.parse(PRELUDE).body if isinstance(n, ast.FunctionDef)}
+
+
 def nf_of_(fn, helpers):
+    helpers = dict(_PRELUDE_HELPERS, **helpers)   # small module-level helpers that are the same on both sides are seen through (refeq.py does the same)
     """normal form of the function and, as units of their own (as refeq.py treats them), of the functions nested in it"""
     nested = []
 
